@@ -28,7 +28,8 @@ class SessionRules(Harness):
     nontrivial_event = "at least one order was accepted in the run"
     reach = ("nontrivial", "cap-reached-agent-skipped", "hft-phase-run", "hft-phase-skipped", "fill",
              "no-exec-session-with-orders", "no-placement-session", "round-checked")
-    assumptions = (
+    assumptions = (rn.REDUCTION_NOTE,
+                   
         "highFrequencySubmitRate: Session.setup() is given a concrete number; for the symbolic-rate cases the "
         "attribute it assigned is overwritten with a solver real in (0,1) (setup's parsing is checked in C18)",
         "scripted agents stand for arbitrary order-producing programs (one order per consultation)")
